@@ -74,8 +74,12 @@ func InitGlobalEnvironment() {
 	initFunction()
 	initMethod()
 	initClosure()
-	initGenerator()
 	initMixin()
+	initIterable()
+	initIterator()
+	initImmutableCollection()
+	initCollection()
+	initGenerator()
 	initComparable()
 	initBool()
 	initTrue()
@@ -99,10 +103,6 @@ func InitGlobalEnvironment() {
 	initChar()
 	initSymbol()
 	initRegex()
-	initIterator()
-	initIterable()
-	initImmutableCollection()
-	initCollection()
 	initTuple()
 	initList()
 	initArrayTuple()
